@@ -94,7 +94,7 @@ func runC02(c *Ctx) {
 		wbs := c.Fn("core:(*BlockChain).WriteBlockWithState")
 		ext := `new\(Int\)\.Add\(Block#0\.Difficulty\(\), BlockChain#0\.GetTd\(Block#0\.ParentHash\(\), \(Block#0\.NumberU64\(\) - 1\)\)\)`
 		loc := `BlockChain#0\.GetTd\(BlockChain#0\.CurrentBlock\(\)\.Hash\(\), BlockChain#0\.CurrentBlock\(\)\.NumberU64\(\)\)`
-		ff := c.FactsFocus(wbs, `GetTd\(|\.NumberU64\(\) (<|>|==|<=|>=) BlockChain|rand\.Float64`, true, "status", "reorg")
+		ff := c.FactsFocus(wbs, `GetTd\(|\.NumberU64\(\) (<|>|==|<=|>=) BlockChain|rand\.Float64`, true, "type:WriteStatus")
 		sites := ff.Calls(mustRe(`^BlockChain\.(insert|reorg)$`))
 		var states []*pstate
 		for _, s := range sites {
